@@ -56,7 +56,7 @@ T_PeerSend ==
   /\ pushed' = [s \in SubIds |-> pushed[s] + PushedBy(E.m, s)]
   /\ UNCHANGED <<idCtr, fe, toBack, req, subIdx, bat, stream, seen, unsubSent, fault>> /\ UNCHANGED shutVars
 
-T_WireIn == Ev("WireIn") /\ UNCHANGED started /\ inq # <<>> /\ Head(inq) = E.m /\ RtRecv
+T_WireIn == Ev("WireIn") /\ UNCHANGED started /\ inq # <<>> /\ Head(inq) = E.m /\ (RtRecv \/ RtRecvRejectsWhole)   \* (latitude: Client.tla)
 
 ResMatches(r, e) ==
   /\ r.k = e.k
@@ -134,6 +134,7 @@ Silent ==
      \/ RtForward
      \/ \E h \in Subs : SubUnsubEnqueue(h) \/ SubDrainOne(h)
      \/ \E h \in Subs : LagCloses(h)              \* latitude of C05 (Client.tla): a lagged stream may end at once
+     \/ StSkipAbandoned                           \* latitude of C03 / C18: a queued operation nobody waits for need not be sent
      \/ StNoticeClosed \/ RtNoticeClosed \/ RtHandOver \/ StCloseFront \/ StHandOver \/ StEnd \/ WdRecv \/ ManagerDrop
 
 TNext == T_Reset \/ T_FeStart \/ T_WireOut \/ T_PeerSend \/ T_WireIn \/ T_FeDone \/ T_FeAbandon \/ T_SubNext \/ T_SubEnd \/ T_SubUnsub
